@@ -3695,6 +3695,8 @@ class BindMacro(Macro):
             raise VeriTException("bind", "lhs and rhs should have the same number of quantifiers")
 
         for lv, rv in zip(l_vars, r_vars):
+            if rv != lv and (lhs.occurs_var(rv) or rhs.occurs_var(lv)):
+                raise VeriTException("bind", "renamed variable occurs free on the other side")
             if not lv.is_var() or lv.name not in ctx or ctx[lv.name] != rv:
                 print('prem', prem)
                 print('goal', goal)
